@@ -911,10 +911,19 @@ class NestedContainer(Task, Iterable):
     def __dask_tokenize__(self):
         from dask.tokenize import tokenize
 
+        if self.klass is dict:
+            # insertion order is not part of a dict's identity; the pairing
+            # of keys and values is
+            tokens = sorted(tokenize(kv) for kv in batched(self.args, 2, strict=True))
+        elif self.klass is set:
+            tokens = sorted(tokenize(a) for a in self.args)
+        else:
+            # element order is part of a list's / tuple's identity
+            tokens = [tokenize(a) for a in self.args]
         return (
             type(self).__name__,
             self.klass,
-            sorted(tokenize(a) for a in self.args),
+            tokens,
         )
 
         return super().__dask_tokenize__()
